@@ -91,6 +91,9 @@ def run(ctx):
         raise Inconclusive("the nominal argument shapes are not accepted by the verifiers: the shape model does not bind")
     for v in res.get("violations") or []:
         ctx.violation(v["key"], v["what"] + " (%d inputs with this key)" % res["violation_counts"].get(v["key"], 1), v["replay"])
+    bs = info.get("block_sequences") or {}
+    if not ctx.violations and bs.get("applied", 0) + bs.get("second-rejected", 0) < 5:
+        raise Inconclusive("block sequences never reach the second block of the same generator: %s" % bs)
     per_entry = {k: v for k, v in sorted(res["per_entry"].items()) if v}
     silent = [k for k, v in res["per_entry"].items() if not v and k not in res.get("disabled", {})]
     if silent:
@@ -139,7 +142,7 @@ def run(ctx):
                schemas_from_real_node=sorted(schemas), shape_families=sorted(fams), registry_types=ntypes,
                verdicts={k: v for k, v in res["verdicts"].items() if not k.startswith(("decode:", "strict:"))},
                spec_vs_strict_decoder=dict(agree=info["spec_vs_strict_decoder_agree"], disagree=info["spec_vs_strict_decoder_disagree"]),
-               malformed_shapes_accepted=info["malformed_shapes_accepted_by"], odd_blocks=info["odd_blocks"], mutants=info["mutants"],
+               malformed_shapes_accepted=info["malformed_shapes_accepted_by"], odd_blocks=info["odd_blocks"], block_sequences=info.get("block_sequences"), mutants=info["mutants"],
                entry_points_disabled_after_findings=res.get("disabled"), violation_input_counts=res["violation_counts"],
                phase_seconds=info["phase_seconds"], exhaustive_alloc_per_call=info["exhaustive_alloc_per_call"])
     finish(ctx, LEVEL, cov, assumptions=[
